@@ -1,5 +1,5 @@
-------------------------------- MODULE T_C01 -------------------------------
-(* C->S judge for C01.  Record: [id, b (input bytes), ok, len, raw, mn, pre, ops] = what miasmX reported  *)
+------------------------------- MODULE T_CAL -------------------------------
+(* Calibration judge (objdump as the observed side; NOT a verdict).  Same record format as T_C01.  Record: [id, b (input bytes), ok, len, raw, mn, pre, ops] = what miasmX reported  *)
 (* for input b (ok = FALSE: no instruction / exception; then only b matters).  Only strings that both     *)
 (* sides accept as one instruction without superfluous prefixes are compared; the others are counted.     *)
 EXTENDS IA32Judge, Json, IOUtils
@@ -12,6 +12,8 @@ Next == \/ /\ i < Len(Recs) /\ i' = i + 1
               /\ IF c = "cmp" THEN
                     LET v == Clauses(r, d) IN
                     IF v = <<>> THEN TRUE ELSE PrintT("VERDICT " \o ToJson([id |-> r.id, v |-> v, spec |-> d]))
+                 ELSE IF c = "implrej" THEN PrintT("ONLY " \o ToJson([id |-> r.id, who |-> "spec", mn |-> d.mn, why |-> ""]))
+                 ELSE IF c = "specrej" /\ r.ok THEN PrintT("ONLY " \o ToJson([id |-> r.id, who |-> "objdump", mn |-> r.mn, why |-> d.why]))
                  ELSE TRUE
         \/ /\ i = Len(Recs) /\ i' = i + 1 /\ cnt' = cnt
            /\ PrintT("STATS " \o ToJson(cnt))
